@@ -202,6 +202,7 @@ func Scenarios() []Scenario {
 		}},
 		{"redist", func(st *Streams) *Built { return buildRedist(st, []ID{1, 2}, []uint64{1, 2, 3}, 0) }},
 		{"redistAnchor", func(st *Streams) *Built { return buildRedist(st, []ID{1, 2, 3}, []uint64{2, 3, 4}, 1) }},
+		{"redistNew", func(st *Streams) *Built { return buildRedist(st, []ID{1, 2}, []uint64{3, 4}, 0) }}, // all receivers are newcomers without anchor
 		{"gennaro", func(st *Streams) *Built {
 			ids := []ID{1, 2, 3}
 			ctxs, err := ad.SetupSessions(ids, st.Setup)
